@@ -292,7 +292,7 @@ def window_start(m):
     return min((mu['at'] for mu in m.mutations), default=None)
 
 
-def plan_faults(events, r, l1, win, inv, tier, entry, agg=False, blocked=(), owin=()):
+def plan_faults(events, r, l1, win, inv, tier, entry, agg=False, blocked=(), owin=(), still_open=frozenset()):
     """Which (k, exception name) pairs to inject for one recorded invocation."""
     adm = [e for e in events[:r] if e['adm'] and not any(lo <= e['i'] < hi for lo, hi in blocked)]
     l1ev = [e for e in adm if e['ckey'] in l1]
@@ -301,6 +301,7 @@ def plan_faults(events, r, l1, win, inv, tier, entry, agg=False, blocked=(), owi
     plan = []
     fam_a, fam_b = inject.OSERROR_FAMILY, inject.OTHER_FAMILY
     nmpl = 0
+    nret = 0
     for e in l1ev:
         if agg and tier == 'quick' and e['callee'].startswith('matplotlib.'):
             # real Agg drawing costs ~0.5 s per execution: in the quick tier the
@@ -308,16 +309,22 @@ def plan_faults(events, r, l1, win, inv, tier, entry, agg=False, blocked=(), owi
             nmpl += 1
             if nmpl % 6 != 1:
                 continue
-            plan.append((e['i'], rr.choice(fam_a if nmpl % 12 == 1 else fam_b), 'L1'))
+            plan.append((e['i'], rr.choice(fam_a if nmpl % 12 == 1 else fam_b), 'L1', 'entry'))
             continue
-        plan.append((e['i'], rr.choice(fam_a), 'L1'))
-        plan.append((e['i'], rr.choice(fam_b), 'L1'))
+        plan.append((e['i'], rr.choice(fam_a), 'L1', 'entry'))
+        plan.append((e['i'], rr.choice(fam_b), 'L1', 'entry'))
+        if e['i'] not in still_open:
+            # the collaborator completes its effect, then the failure surfaces on return
+            nret += 1
+            plan.append((e['i'], rr.choice(fam_a if nret % 2 else fam_b), 'L1', 'return'))
     if entry != 'template_input':
         # window_*: cheap, sweep every deeper site too
         for n, e in enumerate(l2ev):
-            plan.append((e['i'], rr.choice(fam_a if n % 2 == 0 else fam_b), 'L2'))
+            plan.append((e['i'], rr.choice(fam_a if n % 2 == 0 else fam_b), 'L2', 'entry'))
             if tier == 'thorough':
-                plan.append((e['i'], rr.choice(fam_b if n % 2 == 0 else fam_a), 'L2'))
+                plan.append((e['i'], rr.choice(fam_b if n % 2 == 0 else fam_a), 'L2', 'entry'))
+            if (n % 2 == 1 or tier == 'thorough') and e['i'] not in still_open:
+                plan.append((e['i'], rr.choice(fam_a if n % 4 == 1 else fam_b), 'L2', 'return'))
     else:
         nl2 = 16 if tier == 'quick' else 120
         # sites inside the window of any *other* environment variable the code mutates come
@@ -327,7 +334,7 @@ def plan_faults(events, r, l1, win, inv, tier, entry, agg=False, blocked=(), owi
             if any(lo <= e['i'] < hi for lo, hi, _ in owin):
                 prio.setdefault((e['caller'], e['line'], e['callee']), e)
         for n, s_ in enumerate(sorted(prio)[:40 if tier == 'quick' else 400]):
-            plan.append((prio[s_]['i'], rr.choice(fam_a if n % 2 == 0 else fam_b), 'L2'))
+            plan.append((prio[s_]['i'], rr.choice(fam_a if n % 2 == 0 else fam_b), 'L2', 'entry'))
         # stratify by call site (caller, line, callee): every distinct site once
         # before any site twice; in-window sites first 4:1
         inwin = [e for e in l2ev if win is not None and e['i'] >= win]
@@ -354,7 +361,8 @@ def plan_faults(events, r, l1, win, inv, tier, entry, agg=False, blocked=(), owi
                     break
             chosen += picked
         for n, e in enumerate(chosen):
-            plan.append((e['i'], rr.choice(fam_a if n % 2 == 0 else fam_b), 'L2'))
+            when = 'return' if (n % 3 == 2 and e['i'] not in still_open) else 'entry'
+            plan.append((e['i'], rr.choice(fam_a if n % 2 == 0 else fam_b), 'L2', when))
     return plan, len(l1ev), len(l2ev)
 
 
@@ -372,7 +380,7 @@ def resolve_selector(sel, events, r, l1, win):
     if not pool:
         return None
     e = pool[min(len(pool) - 1, int(sel['u']*len(pool)))]
-    return e['i'], sel['exc']
+    return e['i'], sel['exc'], sel.get('when', 'entry')
 
 
 def fault_from_spec(spec):
@@ -382,4 +390,5 @@ def fault_from_spec(spec):
         return None
     if isinstance(spec, list):
         return [fault_from_spec(x) for x in spec]
-    return inject.Fault(spec.get('k'), spec['exc'], tuple(spec['identity']), occ=spec['occ'])
+    return inject.Fault(spec.get('k'), spec['exc'], tuple(spec['identity']), occ=spec['occ'],
+                        when=spec.get('when', 'entry'))
